@@ -1,10 +1,18 @@
 (* C18/Props.v -- the property theorems, nothing else.
    "Objects read from a sheet match their source cells."
    A worksheet is a list of rows of cell values; the cell in row r, column c (0-based) has the
-   coordinate [coord_text r c].  [read_table cf sh] = (items yielded by iter_table, exception that
-   ended the iteration if any); an item is [Some object] or [None] (row without id values). *)
+   coordinate [coord_text r c].
+   [read_table_m mc sh] = XlsTableReader(rules_1, ..., rules_n).iter_table: (tuples yielded, exception
+   that ended the iteration if any); a tuple has one item per rule set (object class), an item is
+   [Some object] or [None] (row without id values for that class).  The column names claimed by name
+   are those of ALL rule sets: [known_all (mc_objs mc)].
+   [read_table cf sh] = the module-level iter_table / read_table / TableReader: one object class, the
+   items themselves; it IS the reader with one rule set, unpacked (single_is_multi), and
+   [read_table_k known cf sh] is the reading of one rule set when [known] are the claimed names
+   (read_table cf = read_table_k (known_names (cf_rules cf)) cf by definition; objects_independent:
+   the i-th components of a multi reading are read_table_k (known_all ...) of the i-th rule set). *)
 From Coq Require Import ZArith List Bool.
-From AK Require Import Common.Err C18.Base gen.C18_Consts C18.Model C18.Lemmas C18.LemmasLadder C18.LemmasCoord C18.LemmasRange C18.Session C18.LemmasSession.
+From AK Require Import Common.Err C18.Base gen.C18_Consts C18.Model C18.Lemmas C18.LemmasLadder C18.LemmasCoord C18.LemmasRange C18.Session C18.LemmasSession C18.LemmasMulti.
 Import ListNotations.
 
 (* the origin markers read from the source can never be mistaken for a coordinate *)
@@ -14,21 +22,87 @@ Proof. exact markers_not_coords. Qed.
 Print Assumptions markers_are_not_coordinates.
 
 (* ---------------------------------------------------------------------------------------- *)
-(* origin_consistent (full).  For every object produced from a worksheet and every attribute
-   (rule ru, value v, recorded origin og), [attr_sheet_ok] holds:
+(* single_is_multi.  The module-level iter_table builds XlsTableReader(rules) and unpacks the
+   1-tuples ([iter_table_fn], what Run.v evaluates for single readings): that is [read_table];
+   and the reader with one rule set yields the items of [read_table] as 1-tuples.  So every theorem
+   about [read_table_m] below has the theorem about [read_table] as its one-element special case
+   (origin_consistent_single, rows_in_order_single are derived that way). *)
+Theorem single_is_multi : forall cf sh,
+  iter_table_fn cf sh = read_table cf sh /\
+  read_table_m (mc_one cf) sh = (map (fun x => [x]) (fst (read_table cf sh)), snd (read_table cf sh)).
+Proof. intros cf sh. split; [apply read_table_one|apply read_table_m_one]. Qed.
+Print Assumptions single_is_multi.
+
+(* ---------------------------------------------------------------------------------------- *)
+(* origin_consistent (full).  For every object produced from a worksheet -- the i-th object of the
+   j-th tuple of a reader with any number of rule sets -- and every attribute (rule ru of the i-th
+   rule set, value v, recorded origin og), [attr_sheet_ok sh known] holds with known = the column
+   names claimed by ALL rule sets:
    - ru = RPlain col cv _, og = OCell r c: the sheet cell (r, c) exists, column c is titled col in
      the title row, and v is the conversion of that cell (val_from_val cv);
    - ru = RPlain col _ (Some d), og = OSkipped: no column is titled col and v is the default d;
    - ru = RExt d, og = ONa: v is the default d;
    - ru = RRange isdict cv _, og = ORange dict: there are sheet cells, one per column name of the
-     detected range group and each standing in a column with that title, such that v is the range
-     conversion of these cells and dict maps each title to its cell's coordinate;
+     detected range group [range_scan known titles] and each standing in a column with that title,
+     such that v is the range conversion of these cells and dict maps each title to its cell's
+     coordinate;
    no other combination occurs.  This holds for objects yielded before an exception, too. *)
-Theorem origin_consistent : forall cf sh items e j o,
-  read_table cf sh = (items, e) -> nth_error items j = Some (Some o) ->
-  Forall2 (attr_sheet_ok sh (cf_rules cf)) (cf_rules cf) (o_attrs o).
-Proof. exact origin_consistent_l. Qed.
+Theorem origin_consistent : forall mc sh items e j tup i ob o,
+  read_table_m mc sh = (items, e) -> nth_error items j = Some tup ->
+  nth_error (mc_objs mc) i = Some ob -> nth_error tup i = Some (Some o) ->
+  Forall2 (attr_sheet_ok sh (known_all (mc_objs mc))) (fst ob) (o_attrs o).
+Proof. exact origin_consistent_m_l. Qed.
 Print Assumptions origin_consistent.
+
+(* one rule set (iter_table / read_table / TableReader): the special case *)
+Theorem origin_consistent_single : forall cf sh items e j o,
+  read_table cf sh = (items, e) -> nth_error items j = Some (Some o) ->
+  Forall2 (attr_sheet_ok sh (known_names (cf_rules cf))) (cf_rules cf) (o_attrs o).
+Proof. exact origin_consistent_one. Qed.
+Print Assumptions origin_consistent_single.
+
+(* ---------------------------------------------------------------------------------------- *)
+(* objects_independent (full).  The objects of one table row do not influence each other beyond the
+   set of claimed column names: with [single_of mc sh ob] = what the rules of ob alone read from the
+   sheet when the names claimed by all rule sets of the reader count as known
+   (read_table_k (known_all (mc_objs mc)) (mc_cf mc ob) sh),
+   - the i-th item of the j-th tuple is the j-th item of the reading of the i-th rule set;
+   - the reader yields tuples as long as every rule set can be read: no reading is shorter than the
+     tuple list; without exception all of them end there too, without exception; with exception x
+     some rule set's own reading ends exactly there with x (bind_titles_row / construct of that
+     object raised), or the reader has no rule set at all. *)
+Theorem objects_independent : forall mc sh items e,
+  read_table_m mc sh = (items, e) ->
+  (forall j tup, nth_error items j = Some tup ->
+     Forall2 (fun ob it => nth_error (fst (single_of mc sh ob)) j = Some it) (mc_objs mc) tup) /\
+  (forall ob, In ob (mc_objs mc) -> (length items <= length (fst (single_of mc sh ob)))%nat) /\
+  match e with
+  | None => forall ob, In ob (mc_objs mc) ->
+                       snd (single_of mc sh ob) = None /\ length (fst (single_of mc sh ob)) = length items
+  | Some x => mc_objs mc = [] \/
+              exists ob, In ob (mc_objs mc) /\ snd (single_of mc sh ob) = Some x /\
+                         length (fst (single_of mc sh ob)) = length items
+  end.
+Proof. exact objects_independent_l. Qed.
+Print Assumptions objects_independent.
+
+(* non-vacuity, and the point of the union: titles Id Name math art Room Desk, a student
+   (Id, Name, ranged grades) and a seat (Room, Desk) per row.  The range group of the student is
+   math, art -- Room and Desk are claimed by the other object; with the student's own names only
+   the group would be math, art, Room, Desk. *)
+Example ex_two_objects :
+  map (map (option_map (fun o => map (fun a => origin_text (snd a)) (o_attrs o)))) (fst (read_table_m ex2_mc ex2_sheet)) =
+  [ [ Some [coord_text 1 0; coord_text 1 1; coord_text 1 2 ++ [58%Z] ++ coord_text 1 3];
+      Some [coord_text 1 4; coord_text 1 5] ];
+    [ Some [coord_text 2 0; coord_text 2 1; coord_text 2 2 ++ [58%Z] ++ coord_text 2 3];
+      Some [coord_text 2 4; coord_text 2 5] ] ] /\
+  snd (read_table_m ex2_mc ex2_sheet) = None /\
+  range_scan (known_all (mc_objs ex2_mc)) (sheet_titles ex2_sheet) false = [[109%Z]; [97%Z]] /\
+  range_scan (known_names [RPlain [73;100] ex2_int None; RPlain [78] (mkConv KStr None None None) None;
+                           RRange true ex2_int false]) (sheet_titles ex2_sheet) false =
+  [[109%Z]; [97%Z]; [82%Z]; [68%Z]].
+Proof. exact ex_two_objects_l. Qed.
+Print Assumptions ex_two_objects.
 
 (* ... and get_attr_origin reports exactly the recorded origin: the coordinate text of the cell,
    the marker, the range text; with a key, the coordinate of that key's cell of a ranged attribute
@@ -60,12 +134,35 @@ Proof. exact range_key_dict. Qed.
 Print Assumptions range_key_consistent.
 
 (* ---------------------------------------------------------------------------------------- *)
-(* rows_in_order (full).  With t the index of the title row (first non-blank row): item j belongs
+(* rows_in_order (full).  With t the index of the title row (first non-blank row): tuple j belongs
    to sheet row t+1+j, which exists and is not an end row under the chosen rule ([vis_end]: first
-   cell blank for "blank first", all cells blank otherwise); every origin of the item lies in that
-   row (ladder: in rows t+1 .. t+1+j); and a reading that ends without exception ends at the end
-   of the sheet or at an end row.  Without a title row nothing is produced. *)
-Theorem rows_in_order : forall cf sh items e,
+   cell blank for "blank first", all cells blank otherwise; [mc_loop mc] = the stop_on /
+   ladder_format part of the configuration); it has one item per rule set; every origin of every
+   object of the tuple lies in that row (ladder: in rows t+1 .. t+1+j); and a reading that ends
+   without exception ends at the end of the sheet or at an end row.  Without a title row nothing is
+   produced.  (Any number of rule sets, zero included.) *)
+Theorem rows_in_order : forall mc sh items e,
+  read_table_m mc sh = (items, e) ->
+  match title_row sh with
+  | None => items = [] /\ e = None
+  | Some (t, tvs) =>
+      (forall j tup, nth_error items j = Some tup ->
+         exists vs, nth_error sh (S t + j) = Some vs /\ vis_end (mc_loop mc) vs = Ok false /\
+           length tup = length (mc_objs mc) /\
+           forall i o, nth_error tup i = Some (Some o) ->
+             Forall (fun a => origin_rows (if mc_ladder mc then S t else (S t + j)%nat) (S t + j) (snd a))
+                    (o_attrs o)) /\
+      (e = None ->
+       match nth_error sh (S t + length items) with
+       | None => True
+       | Some vs => vis_end (mc_loop mc) vs = Ok true
+       end)
+  end.
+Proof. exact rows_in_order_m_l. Qed.
+Print Assumptions rows_in_order.
+
+(* one rule set: the special case *)
+Theorem rows_in_order_single : forall cf sh items e,
   read_table cf sh = (items, e) ->
   match title_row sh with
   | None => items = [] /\ e = None
@@ -81,28 +178,34 @@ Theorem rows_in_order : forall cf sh items e,
        | Some vs => vis_end cf vs = Ok true
        end)
   end.
-Proof. exact rows_in_order_l. Qed.
-Print Assumptions rows_in_order.
+Proof. exact rows_in_order_one. Qed.
+Print Assumptions rows_in_order_single.
 
 (* ---------------------------------------------------------------------------------------- *)
+(* The ladder theorems are stated for [read_table_k known cf]: the reading of ONE rule set with any
+   set [known] of claimed column names -- known = known_names (cf_rules cf) is [read_table cf]
+   (iter_table / read_table / TableReader), known = known_all (mc_objs mc) is the component
+   [single_of mc sh ob] of a reader with several rule sets (objects_independent); the ladder
+   substitution does not depend on the rules at all. *)
 (* ladder_equiv (full for the default end rule).  [fill_sheet sh] = the table with the "same as
    above" cells filled in (LemmasLadder.v: below the title row and down to the first wholly blank
    row, a run of blank cells starting at the first titled column takes the cells of the filled row
    above).  Reading the ladder sheet in ladder mode and the filled-in sheet in plain mode gives the
    same item values row by row and the same exception, if any ([out_sim]). *)
-Theorem ladder_equiv : forall cf sh w,
+Theorem ladder_equiv : forall known cf sh w,
   Forall (fun vs => length vs = w) sh -> cf_ladder cf = true -> stop_first cf = false ->
-  out_sim (read_table cf sh) (read_table (plain_of cf) (fill_sheet sh)).
+  out_sim (read_table_k known cf sh) (read_table_k known (plain_of cf) (fill_sheet sh)).
 Proof. exact ladder_equiv_l. Qed.
 Print Assumptions ladder_equiv.
 
 (* the statement for both end rules ... *)
-Definition ladder_equiv_statement : Prop := forall cf sh w,
+Definition ladder_equiv_statement : Prop := forall known cf sh w,
   Forall (fun vs => length vs = w) sh -> cf_ladder cf = true ->
-  out_sim (read_table cf sh) (read_table (plain_of cf) (fill_sheet sh)).
+  out_sim (read_table_k known cf sh) (read_table_k known (plain_of cf) (fill_sheet sh)).
 
 (* ... is violated by the faithful model for stop_on="blank first": the table ends at the first
-   "same as above" row (1 item against 3) -- finding ladder-blank-first *)
+   "same as above" row (1 item against 3) -- finding ladder-blank-first (witness: one rule set,
+   read_table) *)
 Theorem ladder_blank_first_refuted :
   exists cf sh w,
     Forall (fun vs => length vs = w) sh /\ cf_ladder cf = true /\ stop_first cf = true /\
@@ -114,10 +217,10 @@ Print Assumptions ladder_blank_first_refuted.
 
 (* guarded: it does hold for "blank first" when the first sheet column is not part of the ladder
    (its title is blank) *)
-Theorem ladder_equiv_guarded : forall cf sh w,
+Theorem ladder_equiv_guarded : forall known cf sh w,
   Forall (fun vs => length vs = w) sh -> cf_ladder cf = true ->
   (stop_first cf = false \/ first_some_pos (sheet_titles sh) 0 <> Some 0%nat) ->
-  out_sim (read_table cf sh) (read_table (plain_of cf) (fill_sheet sh)).
+  out_sim (read_table_k known cf sh) (read_table_k known (plain_of cf) (fill_sheet sh)).
 Proof. exact ladder_equiv_gen. Qed.
 Print Assumptions ladder_equiv_guarded.
 
@@ -128,14 +231,14 @@ Print Assumptions ladder_equiv_guarded.
    ladder starts in the first sheet column and the ladder reading ended without an exception --
    by rows_in_order at a row whose first cell is blank, i.e. at a "same as above" row (witness:
    ladder_blank_first_refuted, where 2 items are missing). *)
-Theorem ladder_prefix : forall cf sh w,
+Theorem ladder_prefix : forall known cf sh w,
   Forall (fun vs => length vs = w) sh -> cf_ladder cf = true ->
   exists rest,
-    map item_vals (fst (read_table (plain_of cf) (fill_sheet sh))) =
-    map item_vals (fst (read_table cf sh)) ++ rest /\
-    ((rest = [] /\ snd (read_table cf sh) = snd (read_table (plain_of cf) (fill_sheet sh))) \/
+    map item_vals (fst (read_table_k known (plain_of cf) (fill_sheet sh))) =
+    map item_vals (fst (read_table_k known cf sh)) ++ rest /\
+    ((rest = [] /\ snd (read_table_k known cf sh) = snd (read_table_k known (plain_of cf) (fill_sheet sh))) \/
      (stop_first cf = true /\ first_some_pos (sheet_titles sh) 0 = Some 0%nat /\
-      snd (read_table cf sh) = None)).
+      snd (read_table_k known cf sh) = None)).
 Proof. exact ladder_prefix_l. Qed.
 Print Assumptions ladder_prefix.
 
@@ -145,9 +248,9 @@ Print Assumptions ladder_prefix.
    get_attr_origin(attr, k) reports, origin_reported) -- lies in rows t+1 .. R, holds exactly what
    the filled-in table has at (R, c), and is the object's own cell whenever that is not blank. *)
 Theorem ladder_origins :
-  forall cf sh w items e t tvs j o i v og r c,
+  forall known cf sh w items e t tvs j o i v og r c,
   Forall (fun vs => length vs = w) sh -> cf_ladder cf = true ->
-  read_table cf sh = (items, e) -> title_row sh = Some (t, tvs) ->
+  read_table_k known cf sh = (items, e) -> title_row sh = Some (t, tvs) ->
   nth_error items j = Some (Some o) -> nth_error (o_attrs o) i = Some (v, og) ->
   (og = OCell r c \/ exists d k, og = ORange d /\ assoc_get k d = Some (r, c)) ->
   (S t <= r <= S t + j)%nat /\
@@ -158,7 +261,8 @@ Print Assumptions ladder_origins.
 
 (* ---------------------------------------------------------------------------------------- *)
 (* range_detect (full).  The column names of a ranged attribute ([range_scan known names false],
-   which origin_consistent ties to every produced object) are the first maximal run of titled
+   which origin_consistent ties to every produced object, with known = known_all (mc_objs mc): the
+   names claimed by ALL rule sets of the reader) are the first maximal run of titled
    columns that no rule names: everything before it is blank-titled or known, and it ends at the
    end of the title row or at a blank-titled / known column ... *)
 Theorem range_detect : forall known names,
@@ -169,6 +273,14 @@ Theorem range_detect : forall known names,
     (post = [] \/ exists n post', post = n :: post' /\ not_range known n = true).
 Proof. exact range_scan_spec. Qed.
 Print Assumptions range_detect.
+
+(* ... where a column counts as known exactly when its title is blank or some rule set of the reader
+   names it (for one rule set: known_all [(rules, nid)] = known_names rules) ... *)
+Theorem range_known_union : forall objs n,
+  not_range (known_all objs) n = true <->
+  n = [] \/ exists ob, In ob objs /\ In n (known_names (fst ob)).
+Proof. exact not_range_known_all. Qed.
+Print Assumptions range_known_union.
 
 (* ... and, when the titles are distinct, the cells read for it are exactly the cells of these
    consecutive columns, in order (with duplicate titles the later column wins: col_names_ids) *)
@@ -269,7 +381,8 @@ Print Assumptions ex_read.
 (* Sessions (Session.v): several readings in one process -- any sheets, any rule sets, any entry
    point -- with in-place edits, by the caller, of values of produced objects in between.
    [reads_of ops] are the (rules, sheet, keys, entry point kind) of the readings of the session in
-   order, [read_spec s] is reading s on its own, [targeted ops r j a] says that some edit of the
+   order (SOne: one rule set; SMany: XlsTableReader with several rule sets, the objects of all tuples
+   row by row), [read_spec s] is reading s on its own, [targeted ops r j a] says that some edit of the
    session is applied to attribute a of object j of reading r.
 
    session_local: at the END of the session the r-th reading still is what reading its sheet with
@@ -297,7 +410,7 @@ Print Assumptions session_local.
 
 (* without edits a session is the list of its readings, each on its own *)
 Theorem session_no_edits : forall ops,
-  (forall o, In o ops -> match o with ORead _ _ _ _ => True | OMut _ _ _ _ _ => False end) ->
+  (forall o, In o ops -> match o with OMut _ _ _ _ _ => False | _ => True end) ->
   run_session ops = map read_spec (reads_of ops).
 Proof. exact session_no_edits_lemma. Qed.
 Print Assumptions session_no_edits.
